@@ -143,7 +143,25 @@ def ctor_stream(ctx):
         ctx.evaluations += 1
 
 
+def neox_stream(ctx):
+    """GPT-NeoX path: with pipe = model = 1 the clipped shards must equal the unsharded clipped reference;
+    model > 1 is the F1 witness"""
+    import os
+    import sys
+    sys.path.insert(0, os.path.dirname(os.path.abspath(__file__)))
+    import C11
+    import neoxsim
+    rng = ctx.rng
+    cases = [dict(pp=1, dp=1, mp=2, blocks=1, kl=Fraction(1, 10**4), ops=['f1', 's'], cap_mb=0.0, lead=())]
+    for _ in range(ctx.budget(6, 40)):
+        cases.append(dict(pp=1, mp=1, dp=rng.choice([1, 2, 3]), blocks=rng.choice([1, 2]),
+                          kl=rng.choice([Fraction(1, 10**4), Fraction(1, 10**6)]), ops=['f1', 's'] * rng.randrange(1, 3)))
+    for i, kw in enumerate(cases):
+        C11.check_case(ctx, neoxsim.NCfg(rng, **kw), ctx.seed * 131 + i)
+
+
 def run(ctx):
+    neox_stream(ctx)
     ctor_stream(ctx)
     exact_stream(ctx)
     twin_stream(ctx)
